@@ -77,6 +77,9 @@ struct Pipe {
     reader_gone_at: Option<usize>,
     gone_budget: usize,
     gone_reset: bool,
+    /// bytes that were waiting to be read when the reading side shut down / closed the socket
+    /// (a kernel answers close() with unread data by a reset instead of an orderly release)
+    dropped_unread: usize,
 }
 
 struct ConnState {
@@ -282,6 +285,7 @@ impl Stream {
             if matches!(how, Shutdown::Read | Shutdown::Both) {
                 let p = &mut st.pipes[1 - self.side];
                 p.rd_shut = true;
+                p.dropped_unread += p.segs.iter().map(|s| s.len()).sum::<usize>();
                 p.segs.clear();
             }
             if matches!(how, Shutdown::Write | Shutdown::Both) {
@@ -476,6 +480,8 @@ impl Drop for Stream {
                     st.pipes[me].fin_at = Some(stamp);
                 }
                 st.pipes[1 - me].rd_shut = true;
+                let n: usize = st.pipes[1 - me].segs.iter().map(|s| s.len()).sum();
+                st.pipes[1 - me].dropped_unread += n;
                 st.pipes[1 - me].segs.clear();
             }
             self.wake_peers();
@@ -622,6 +628,12 @@ impl ClientEnd {
 
     pub fn was_reset_by_server(&self) -> bool {
         self.s.conn.st.lock().unwrap().pipes[1].reset
+    }
+
+    /// How many bytes of the client's stream were still unread when the server shut down its
+    /// reading side or closed the socket.
+    pub fn unread_dropped_by_server(&self) -> usize {
+        self.s.conn.st.lock().unwrap().pipes[0].dropped_unread
     }
 
     /// How many bytes of the client's stream the server has not read yet.
